@@ -134,8 +134,8 @@ ZOO += [
     # ---- C02 integrator histories
     ('C02-capacity-off1', 'C02', 'strapdown.py', "        if required_size > size:\n", "        if required_size > size + 1:\n"),
     ('C02-no-max', 'C02', 'strapdown.py', "            new_size = max(2 * size, required_size)\n", "            new_size = 2 * size\n"),
-    ('C02-set-pva-mat', 'C02', 'strapdown.py', "        self.mat_nb[i] = transform.mat_from_rph(pva[RPH_COLS])\n        self.trajectory.iloc[-1] = pva\n",
-     "        self.trajectory.iloc[-1] = pva\n"),
+    ('C02-set-pva-mat', 'C02', 'strapdown.py', "        self.mat_nb[i] = transform.mat_from_rph(pva[RPH_COLS])\n        self.trajectory.iloc[-1] = pva[self.trajectory.columns]\n",
+     "        self.trajectory.iloc[-1] = pva[self.trajectory.columns]\n"),
     ('C02-return-short', 'C02', 'strapdown.py', "            return self.trajectory.iloc[-n_readings - 1:]", "            return self.trajectory.iloc[-n_readings:]"),
     ('C02-predict-appends', 'C02', 'strapdown.py', "        elif mode == 'predict':\n            return trajectory\n",
      "        elif mode == 'predict':\n            self.lla[n_data - 1] = self.lla[n_data - 1] + 0.0 * self.lla[n_data]\n            self.velocity_n[n_data - 1, 2] += 1e-18\n            return trajectory\n"),
@@ -201,7 +201,8 @@ ZOO += [
     # ---- C01 strapdown mechanisation
     ('C01-coriolis-factor', 'C01', '_numba_integrate.py', "        velocity_n[j + 1, 0] = V1 + dv1 + (- (chi2 + Omega2) * V3\n                                           + (chi3 + Omega3) * V2",
      "        velocity_n[j + 1, 0] = V1 + dv1 + (- (chi2 + Omega2) * V3\n                                           + (chi3) * V2"),
-    ('C01-gravity-alt-sign', 'C01', '_numba_integrate.py', "gravity(lat, alt - 0.5 * V3 * dt)", "gravity(lat, alt + 500 * V3 * dt)"),
+    # ('C01-gravity-alt-sign': gravity evaluated 500 V3 dt metres off) removed in round 3: the error it introduces is proportional to the interval,
+    # i.e. it vanishes with h and is inside C01's own allowance (caught earlier only by the tighter K = 4 / shrink 0.75 ladder constants)
     ('C01-tan-south', 'C01', '_numba_integrate.py', "        tan_lat = sin_lat / cos_lat\n", "        tan_lat = abs(sin_lat) / cos_lat\n"),
     ('C01-lon-rate-rn', 'C01', '_numba_integrate.py', "        rho1 = V2 / re\n        rho2 = -V1 / rn\n        rho3 = -rho1 * tan_lat\n        chi1 = Omega1 + rho1\n        chi2 = Omega2 + rho2\n        chi3 = Omega3 + rho3\n\n        lla[j + 1, 0]",
      "        rho1 = V2 / rn\n        rho2 = -V1 / rn\n        rho3 = -rho1 * tan_lat\n        chi1 = Omega1 + rho1\n        chi2 = Omega2 + rho2\n        chi3 = Omega3 + rho3\n\n        lla[j + 1, 0]"),
@@ -264,4 +265,19 @@ ZOO += [
     ('C12-accel-feedback-dropped', 'C12', 'filters.py', "            accel_model.update_estimates(x[accel_block])\n            measurement_time_index += 1\n            increment",
      "            accel_model.update_estimates(0.5 * x[accel_block])\n            measurement_time_index += 1\n            increment"),
     ('C12-pva-correction-frame', 'C12', 'filters.py', "                error_model.correct_pva(integrator.get_pva(), x[ins_block]))", "                error_model.correct_pva(integrator.get_pva(), x[ins_block] * np.r_[np.ones(len(x[ins_block]) - 1), 0.5]))"),
+]
+ZOO += [
+    # ---- reverts of the repairs made in round 3, and the generic mechanisms the third round of seeded changes used
+    ('R3-generate_imu-int-lla-revert', 'C19', 'sim.py', "    lla = np.asarray(lla, dtype=float)\n    if lla.ndim == 1 and velocity_n is None:", "    lla = np.asarray(lla)\n    if lla.ndim == 1 and velocity_n is None:"),
+    ('R3-correct_pva-labels-revert', 'C19,C05', 'error_model.py', "        return pd.Series(data=np.hstack((lla, velocity_n, rph)),\n                         index=LLA_COLS + VEL_COLS + RPH_COLS)",
+     "        return pd.Series(data=np.hstack((lla, velocity_n, rph)), index=pva.index)"),
+    ('R3-set_pva-labels-revert', 'C02,C19', 'strapdown.py', "        self.trajectory.iloc[-1] = pva[self.trajectory.columns]", "        self.trajectory.iloc[-1] = pva"),
+    ('R3-propagate-labels-revert', 'C19', 'error_model.py', "          pva_error[TRAJECTORY_ERROR_COLS].values)", "          pva_error.values)"),
+    ('R3-lla-difference-int-revert', 'C16', 'transform.py', "    result = np.empty(diff.shape)", "    result = np.empty_like(diff)"),
+    ('R3-nan-slice', 'C17', 'transform.py', "    return Rotation.from_matrix(mat).as_euler('xyz', degrees=True)",
+     "    rph = Rotation.from_matrix(mat).as_euler('xyz', degrees=True)\n    return rph / np.where(np.abs(rph) > 179.9, 0.0, 1.0) * np.where(np.abs(rph) > 179.9, 0.0, 1.0)"),
+    ('R3-identity-memo-system-matrices', 'C19,C04', 'error_model.py', "    def system_matrices(self, trajectory):\n",
+     "    def system_matrices(self, trajectory):\n        if getattr(self, '_sm_key', None) is trajectory:\n            return tuple(x.copy() for x in self._sm_val)\n        self._sm_key = trajectory\n        self._sm_val = self._system_matrices(trajectory)\n        return tuple(x.copy() for x in self._sm_val)\n\n    def _system_matrices(self, trajectory):\n"),
+    ('R3-imu-positional-columns', 'C15,C01', 'strapdown.py', "    gyro = imu[GYRO_COLS].values\n    accel = imu[ACCEL_COLS].values", "    gyro = imu.values[:, :3]\n    accel = imu.values[:, 3:6]"),
+    ('R3-rate-n-int-truncation', 'C16', 'earth.py', "    result = np.zeros((n, 3))", "    result = np.zeros((n, 3), dtype=np.asarray(lat).dtype)"),
 ]
